@@ -347,7 +347,114 @@ def c16(case, out):
     return None
 
 
-TABLE = {"C05": ("C05", C05_DEFS, c05), "C11": ("C11", C11_DEFS, c11), "C16": ("C16", C16_DEFS, c16)}
+# ------------------------------------------------------------------ C17
+# kinds converted: strip (TransCtrlSeq in both modes) and enc (the component term -> wire bytes of Message.WriteTo and
+# of nbt.Marshal, or the encoder's refusal); the other kinds carry state (the translation table) or print whole
+# decoded components and are left to the extracted driver
+C17_DEFS = """
+Definition xstrip (s plain ansi : list N) (ch : bool) : bool :=
+  leqb (strip s) plain && leqb (fst (trans_ctrl true s)) ansi && Bool.eqb (snd (trans_ctrl true s)) ch.
+Definition xenc (m : msg) (w named : list N) : bool :=
+  match wire_opt m with Some x => leqb x w && leqb (wire_named m) named | None => false end.
+Definition xencerr (m : msg) : bool := match wire_opt m with Some _ => false | None => true end.
+"""
+
+
+class _C17P:
+    def __init__(self, s):
+        self.s, self.i = s, 0
+
+    def peek(self):
+        return self.s[self.i] if self.i < len(self.s) else ""
+
+    def expect(self, ch):
+        if self.peek() != ch:
+            raise ValueError("expected %s at %d" % (ch, self.i))
+        self.i += 1
+
+    def hexs(self):
+        if self.peek() == "-":
+            self.i += 1
+            return "[]"
+        st = self.i
+        while self.peek() and self.peek() in "0123456789abcdef":
+            self.i += 1
+        return bytes_of_hex(self.s[st:self.i] or "-")
+
+    def lst(self, item):
+        self.expect("[")
+        out = []
+        if self.peek() == "]":
+            self.i += 1
+            return out
+        out.append(item())
+        while self.peek() == ",":
+            self.i += 1
+            out.append(item())
+        self.expect("]")
+        return out
+
+    def msg(self):
+        self.expect("M"); self.expect("(")
+        text = self.hexs(); self.expect(",")
+        fl = self.s[self.i:self.i + 5]; self.i += 5; self.expect(",")
+        if len(fl) != 5 or any(c not in "01" for c in fl):
+            raise ValueError("flags")
+        font = self.hexs(); self.expect(",")
+        color = self.hexs(); self.expect(",")
+        ins = self.hexs(); self.expect(",")
+        if self.peek() == "_":
+            self.i += 1
+            click = "None"
+        else:
+            self.expect("C"); self.expect("(")
+            a = self.hexs(); self.expect(","); v = self.hexs(); self.expect(")")
+            click = "(Some (%s, %s))" % (a, v)
+        self.expect(",")
+        if self.peek() == "_":
+            self.i += 1
+            hover = "None"
+        else:
+            self.expect("H"); self.expect("(")
+            a = self.hexs(); self.expect(","); v = self.msg(); self.expect(")")
+            hover = "(Some (%s, %s))" % (a, v)
+        self.expect(",")
+        tr = self.hexs(); self.expect(",")
+        args = self.lst(self.arg); self.expect(",")
+        extra = self.lst(self.msg)
+        self.expect(")")
+        b = ["true" if c == "1" else "false" for c in fl]
+        return "(Msg %s (mkStyle %s %s %s %s %s) %s %s [%s] [%s])" % (
+            text, " ".join(b), font, color, ins, click, hover, tr, "; ".join(args), "; ".join(extra))
+
+    def arg(self):
+        if self.peek() == "S":
+            self.i += 1
+            self.expect("("); s = self.hexs(); self.expect(")")
+            return "(AS %s)" % s
+        return "(AM %s)" % self.msg()
+
+
+def c17(case, out):
+    c, o = case.split(), out.split()
+    if not c or not o or c[0] != o[0]:
+        return None
+    if c[0] == "strip" and len(c) == 2 and len(o) == 4 and o[3] in ("true", "false"):
+        return "xstrip %s %s %s %s" % (bytes_of_hex(c[1]), bytes_of_hex(o[1]), bytes_of_hex(o[2]), o[3])
+    if c[0] == "enc" and len(c) == 2:
+        p = _C17P(c[1])
+        m = p.msg()
+        if p.i != len(c[1]):
+            return None
+        if len(o) == 2 and o[1] == "err":
+            return "xencerr %s" % m
+        if len(o) >= 3:
+            return "xenc %s %s %s" % (m, bytes_of_hex(o[1]), bytes_of_hex(o[2]))
+    return None
+
+
+TABLE = {"C05": ("C05", C05_DEFS, c05), "C11": ("C11", C11_DEFS, c11), "C16": ("C16", C16_DEFS, c16),
+         "C17": ("C17", C17_DEFS, c17)}
 
 
 def main():
